@@ -156,7 +156,7 @@ REGISTRY = {
         undecided_clauses=[],
     ),
     "C20": dict(
-        packs=["c20"],
+        packs=["c20", "c20b"],
         level="proof",
         replay=dict(script="replay/c20.py", args=["{seed}", "25"], timeout=900),
         bounded=[dict(name="tracker-process-histories", script="replay/c20.py", args=["{seed}", "25"],
@@ -165,7 +165,9 @@ REGISTRY = {
         trusted=["the kernel delivers EOF on the pipe exactly when the last client closed or died; lines are delivered whole (PIPE_BUF)",
                  "str.split(':') / bytes.decode('ascii') abstracted (>= 1 parts; decode may raise)"],
         assumptions=["_CLEANUP_FUNCS = {folder, file, semlock} on posix", "clean-up functions may raise any Exception, not BaseException",
-                     "client side (TemporaryResourcesManager request sequences) is not under contract; only the tracker's response to arbitrary sequences is"],
+                     "client side: TemporaryResourcesManager.register_new_context and _clean_temporary_resources (one context) are under contract (shape-bounded to two "
+                     "concrete context ids, unbounded number of files); the atexit finalizer body, the recursion over all contexts, the reducers' per-file REGISTER "
+                     "requests and the executor shutdown sequence are not", "the tracker process may run with warnings turned into errors (inherited -W flags): warnings.warn may raise"],
         undecided_clauses=["multi-process timing; Windows handles"],
     ),
     "C13": dict(
@@ -322,7 +324,9 @@ MANIFEST_TEXT = {
              "every name still registered is cleaned exactly once, folders after all other types, and a failing clean-up does not stop the others. "
              "unlink_file: all 3^10 outcome sequences of the retry loop (complete unrolling of a constant range).",
         note="Assumed: EOF-on-last-client (kernel), string-library parsing abstracted, clean-up callables external. 'Exactly when the count returns to zero "
-             "over a history' follows by induction from the per-request clause (the induction is the loop invariant rule). Client side not under contract.",
+             "over a history' follows by induction from the per-request clause (the induction is the loop invariant rule). Client side: the manager registers a context's "
+             "folder exactly once, sends exactly one request per file when a context is cleaned (UNREGISTER when forcing, MAYBE_UNLINK otherwise) and un-registers a folder only "
+             "after deleting it (loop invariant with ghost request counters).",
     ),
     "C13": dict(
         text="Representation invariant of BinaryZlibFile/BinaryGzipFile (buffer, offset, position against the ghost decompressed stream D) proved "
